@@ -1214,6 +1214,26 @@ inline void run_step(JW& j, const Step& st, std::unique_ptr<Document>& doc_out, 
             j.str(s);
         j.e();
     }
+    if (wants("shape")) {
+        size_t nl = 0, ne = 0, nb = 0, nv = doc->get_globals().variables.size(), nf = doc->get_globals().functions.size();
+        for (auto& t : doc->get_templates()) {
+            nl += t.locations.size();
+            ne += t.edges.size();
+            nb += t.branchpoints.size();
+            nv += t.variables.size();
+            nf += t.functions.size();
+        }
+        j.k("shape").o();
+        j.k("templates").num((long long)doc->get_templates().size());
+        j.k("dyn_templates").num((long long)doc->get_dynamic_templates().size());
+        j.k("locations").num((long long)nl);
+        j.k("edges").num((long long)ne);
+        j.k("branchpoints").num((long long)nb);
+        j.k("variables").num((long long)nv);
+        j.k("functions").num((long long)nf);
+        j.k("processes").num((long long)doc->get_processes().size());
+        j.e();
+    }
     if (eb && eb->getExpressions().size() > 0 && wants("exprs")) {
         j.k("exprs").a();
         for (int i = (int)eb->getExpressions().size() - 1; i >= 0; --i)
